@@ -1,10 +1,104 @@
-From Coq Require Import List Arith NArith Bool.
+(* C11 - property theorems only; each is closed by a lemma of Lemmas.v / Refuted.v.  `sched` ranges over every
+   interleaving of caller / tx / rx / user threads at their synchronisation points together with every behaviour
+   of the environment (time-outs firing at any moment; the peer answering any outstanding request with a reply or
+   an error reply, sending updates, staying idle, closing), `reqs` over every set of requests (any number of
+   callers, equal or distinct keys, known or unknown actions). *)
+From Coq Require Import List Arith NArith Bool Lia.
 Import ListNotations.
-Require Import FV.Gen.C11 FV.C11.Model.
+Require Import FV.Gen.C11 FV.C11.Model FV.C11.Lemmas FV.C11.Refuted.
 
+(* obligations on the facts regenerated from /repo (Gen/C11.v): the code has the modelled shape, and no reply
+   action of REQUEST2REPLY starts with the error prefix *)
 Theorem C11_source_facts :
   get_reply_shape = true /\ queue_request_shape = true /\ tx_shape = true /\ rx_match_shape = true /\
   rx_deliver_shape = true /\ rx_cleanup_shape = true /\ rx_finally_shape = true /\ disconnect_order = true /\
-  txq_size = 30 /\ pending_size = 30 /\ reply_timeout = 10.
-Proof. repeat split; reflexivity. Qed.
+  txq_size = 30 /\ pending_size = 30 /\ reply_timeout = 10 /\ table_ok R2R ERR.
+Proof.
+  repeat split; try reflexivity.
+  intros a r H.
+  assert (F : forallb (fun p => negb (starts_with ERR (snd p))) R2R = true) by reflexivity.
+  rewrite forallb_forall in F. apply F in H. simpl in H. apply negb_true_iff in H. exact H.
+Qed.
+
+(* the pending-request table never holds two entries per key, and every entry is registered under the key
+   (reply action, identifier) of its own request: all schedules *)
+Theorem C11_one_entry_per_key : forall reqs sched,
+  let a := active (run R2R ERR reqs sched) in
+  NoDup (map fst a) /\ forall k e, In (k, e) a -> k = key_of R2R (req reqs e).
+Proof. intros reqs sched. destruct (table_inv_run R2R ERR reqs sched) as [K N]. split; [exact N | exact K]. Qed.
+
+(* in every reachable state: if the request of caller t is registered, the reply or error reply to it is handed
+   to caller t and to nobody else, whatever other requests are registered (known and unknown actions) *)
+Theorem C11_answer_matched_to_own_entry : forall reqs sched t ok,
+  wf_req R2R ERR (req reqs t) ->
+  let a := active (run R2R ERR reqs sched) in
+  dget (key_of R2R (req reqs t)) a = Some t ->
+  fst (rx_match R2R ERR a (answer R2R ERR (req reqs t) ok t)) = Some t.
+Proof.
+  intros reqs sched t ok W a G. apply match_own; auto.
+  - apply C11_source_facts.
+  - apply (table_inv_run R2R ERR reqs sched).
+Qed.
+
+(* every entry is in at most one place (not yet queued, txq, pending, registered, in the hand of the tx or rx
+   thread, answered): all schedules.  Hence no entry is transmitted or answered twice *)
+Theorem C11_entries_linear : forall reqs sched x, P (run R2R ERR reqs sched) x <= 1.
+Proof. intros; apply linear_run. Qed.
+
+(* no caller is handed two replies *)
+Theorem C11_answered_at_most_once : forall reqs sched x,
+  cnt x (map fst (replies (run R2R ERR reqs sched))) <= 1.
+Proof. intros reqs sched x. pose proof (linear_run R2R ERR reqs sched x) as H. unfold P in H. lia. Qed.
+
+(* no caller waits longer than its time-out: in every state a waiting caller can leave by time-out, and that
+   step makes request() return *)
+Theorem C11_wait_bounded : forall reqs s i, nth_error (cs s) i = Some CWait ->
+  enabled s (TC i) ATimeout = true /\
+  exists o, nth_error (cs (cstep R2R ERR reqs s (TC i, ATimeout))) i = Some (CDone o).
+Proof. intros; apply wait_bounded; assumption. Qed.
+
+(* FULL STATEMENT (refuted, see below): disconnect() never raises.  Proved with the exact guard: a step of
+   disconnect() raises only at the shutdown-marker step, and only if self._txthread was cleared after the test *)
+Theorem C11_disconnect_raises_only_in_join_race : forall s d,
+  snd (dstep s d) = DExc -> d = DExc \/ (d = DMark /\ txset s = false).
+Proof. intros; apply dstep_raises; assumption. Qed.
+
+(* refutations on the faithful model (witness schedules are real executions of the pinned code, corpus/C11) *)
+Theorem C11_refuted_own_reply_parked : exists reqs sched,
+  all_enabled reqs sched = true /\
+  let s := run R2R ERR reqs sched in
+  nth_error (cs s) 1 = Some (CDone OTimeout) /\ pending s = [1] /\ active s = [] /\ out s = [] /\
+  running s = true /\ closed_local s = false /\ memb 0 (map fst (replies s)) = true.
+Proof. exact C11_refuted_parked. Qed.
+
+Theorem C11_refuted_release_txq_entry_lost : exists reqs sched,
+  all_enabled reqs sched = true /\
+  let s := run R2R ERR reqs sched in
+  us s = UDisc DFin /\ cs s = [CDone OTimeout; CDone OTimeout] /\ evset s = [].
+Proof. exact C11_refuted_txq_entry_lost. Qed.
+
+Theorem C11_refuted_disconnect_raises : exists reqs sched,
+  all_enabled reqs sched = true /\ us (run R2R ERR reqs sched) = UDisc DExc.
+Proof. exact C11_refuted_txthread_join_race. Qed.
+
+(* non-vacuity: two callers with the same key, both answered with their own reply, in order *)
+Example C11_demo :
+  let reqs := [([114; 101; 97; 100]%N, [109; 58; 112]%N); ([114; 101; 97; 100]%N, [109; 58; 112]%N)] in
+  let s := run R2R ERR reqs
+    [(TC 0, ANone); (TC 1, ANone); (TTx, ANone); (TTx, ANone); (TTx, ANone); (TTx, ANone); (TTx, ANone);
+     (TRx, ANone); (TRx, APeer (PReply 0 true)); (TRx, ANone); (TRx, ANone); (TRx, ANone); (TRx, ANone); (TRx, ANone);
+     (TTx, ANone); (TTx, ANone); (TRx, APeer (PReply 1 false)); (TRx, ANone); (TC 0, ANone); (TC 1, ANone)] in
+  map (fun c => match c with CDone (OReply m) => Some (true, m_tok m) | CDone (OError m) => Some (false, m_tok m) | _ => None end) (cs s)
+  = [Some (true, 0); Some (false, 1)].
+Proof. vm_compute. reflexivity. Qed.
+
 Print Assumptions C11_source_facts.
+Print Assumptions C11_one_entry_per_key.
+Print Assumptions C11_answer_matched_to_own_entry.
+Print Assumptions C11_entries_linear.
+Print Assumptions C11_answered_at_most_once.
+Print Assumptions C11_wait_bounded.
+Print Assumptions C11_disconnect_raises_only_in_join_race.
+Print Assumptions C11_refuted_own_reply_parked.
+Print Assumptions C11_refuted_release_txq_entry_lost.
+Print Assumptions C11_refuted_disconnect_raises.
